@@ -534,6 +534,73 @@ def selfmodel_case(case):
                 out.append(('may-differs-from-trigger', dict(info, may=bool(may), executed=executed, trigger=repr(res)[:120],
                                                               state=str(m.state)), 'C12.selfmodel:' + setup[0]))
                 return out, n, trues
+    if not setup[2] or True:
+        o2, n2, t2 = reconf_case(case)
+        return out + o2, n + n2, trues + t2
+    return out, n, trues
+
+
+def reconf_case(case):
+    """several models, transitions removed and declared again at run time: for EVERY model may_<event> /
+    may_trigger(name) still equals 'the trigger issued right away executes a transition'"""
+    setup = case['_setup']
+    cls = get_cls(setup[1])
+    is_async = setup[3]
+    out, n, trues = [], 0, 0
+    extra = {'graph_engine': 'mermaid'} if 'Graph' in setup[1] else {}
+
+    class PM(object):
+        def __init__(self):
+            self.log = []
+
+        def moved(self, *a, **k):
+            self.log.append('after')
+    models = [PM() for _ in range(3)]
+    m = cls(model=list(models), states=['A', 'B', 'C'],
+            transitions=[{'trigger': 'go', 'source': 'A', 'dest': 'B', 'after': 'moved'}, ['back', '*', 'A']],
+            initial='A', auto_transitions=False, **extra)
+
+    def run(x):
+        return asyncio.run(x) if inspect.isawaitable(x) else x
+
+    async def arun(f):
+        r = f()
+        return (await r) if inspect.isawaitable(r) else r
+
+    def probe(stage, expect):
+        nonlocal n, trues
+        for i, mo in enumerate(models):
+            twin_state = mo.state
+            try:
+                may = run(arun(lambda: mo.may_trigger('go')))
+            except BaseException as e:      # noqa
+                may = repr(e)[:80]
+            del mo.log[:]
+            try:
+                fn = getattr(mo, 'go', None)
+                res = run(arun(fn)) if fn is not None else 'no-method'
+            except BaseException as e:      # noqa
+                res = type(e).__name__
+            executed = 'after' in mo.log
+            n += 1
+            trues += int(may is True)
+            if (may is True) != executed or executed != expect:
+                out.append(('may-differs-from-trigger', {'setup': setup[0], 'stage': stage, 'model': i, 'may': str(may),
+                                                         'executed': executed, 'trigger': str(res), 'expected': expect,
+                                                         'state_before': str(twin_state)}, 'C12.reconf:' + setup[0]))
+                return False
+            try:
+                run(arun(lambda: mo.back()))
+            except BaseException:       # noqa
+                pass
+        return True
+    if not probe('initial', True):
+        return out, n, trues
+    m.remove_transition('go')
+    if not probe('after remove_transition', False):
+        return out, n, trues
+    m.add_transition('go', 'A', 'C', after='moved')
+    probe('declared again', True)
     return out, n, trues
 
 
